@@ -142,7 +142,7 @@ def fam_flat6fv(item):
         base = gen.apply_mods(shape, [(j, 'forever', True),
                                       (j, 'dur', 'never'),
                                       ('top', 'window', 2)])
-        menu = gen.open_menu(base, {'dur': [2]}, {}, {})
+        menu = gen.open_menu(base, {'dur': [2], 'out': ['raise']}, {}, {})
         for scn, _ in gen.variants(base, menu, 1):
             yield scn
 
